@@ -32,8 +32,124 @@ def dotted(node):
 
 
 class Tr:
-    def __init__(self, generator_callees=()):
+    """`local_funcs` (name -> FunctionDef of the same module) switches on the interprocedural treatment of output
+    (used for cli.main): a call of a module-local function that can reach sys.stdout / sys.stderr / print — directly,
+    through another local function, or because the call hands it sys.stdout — is not an opaque atom: its body is
+    inlined (parameters bound to sys.stdout become stdout), or, when it cannot be inlined (early `return`, recursion),
+    replaced by `loop (opaque ; write)` = any number of possibly partial writes.  A call of an unknown function that is
+    handed sys.stdout gets the same over-approximation."""
+
+    def __init__(self, generator_callees=(), local_funcs=None, stdout_names=("sys.stdout",), stderr_names=("sys.stderr",), depth=0, stack=()):
         self.genfuncs = set(generator_callees)
+        self.local_funcs = dict(local_funcs or {})
+        self.stdout_names = set(stdout_names)
+        self.stderr_names = set(stderr_names)
+        self.depth = depth
+        self.stack = tuple(stack)
+        self._writers = None
+
+    # ---- which module-local functions can write to stdout / stderr
+    def _mentions_output(self, fn):
+        chans = set()
+        for n in ast.walk(fn):
+            d = dotted(n) if isinstance(n, ast.Attribute) else None
+            if d in ("sys.stdout", "sys.__stdout__"):
+                chans.add("out")
+            elif d in ("sys.stderr", "sys.__stderr__"):
+                chans.add("err")
+            elif isinstance(n, ast.Call) and dotted(n.func) == "print":
+                kw = {k.arg: k.value for k in n.keywords}
+                chans.add("err" if "file" in kw and dotted(kw["file"]) in ("sys.stderr", "sys.__stderr__") else "out")
+            elif isinstance(n, ast.Call) and dotted(n.func) in ("os.write", "os.writev"):
+                chans.add("out")
+        return chans
+
+    def writers(self):
+        """{local function name: channels it may write to} (fixpoint over calls between local functions)"""
+        if self._writers is None:
+            w = {name: self._mentions_output(fn) for name, fn in self.local_funcs.items()}
+            changed = True
+            while changed:
+                changed = False
+                for name, fn in self.local_funcs.items():
+                    for n in ast.walk(fn):
+                        if isinstance(n, ast.Call) and isinstance(n.func, ast.Name) and n.func.id in w and n.func.id != name:
+                            add = w[n.func.id] - w[name]
+                            if add:
+                                w[name] |= add
+                                changed = True
+            self._writers = {k: v for k, v in w.items() if v}
+        return self._writers
+
+    def _out_args(self, call):
+        """channels handed to the callee as arguments: [(position or keyword, 'out'|'err')]"""
+        res = []
+        for i, a in enumerate(call.args):
+            d = dotted(a)
+            if d in self.stdout_names:
+                res.append((i, "out"))
+            elif d in self.stderr_names:
+                res.append((i, "err"))
+        for k in call.keywords:
+            d = dotted(k.value)
+            if d in self.stdout_names:
+                res.append((k.arg, "out"))
+            elif d in self.stderr_names:
+                res.append((k.arg, "err"))
+        return res
+
+    def is_writer_call(self, call):
+        if not self.local_funcs:
+            return False
+        d = dotted(call.func)
+        if d is None:
+            return False
+        if d in ("print", "json.dump") or any(d == n + ".write" for n in self.stdout_names | self.stderr_names):
+            return False  # modelled directly by `stmt`
+        if isinstance(call.func, ast.Name) and call.func.id in self.local_funcs:
+            return call.func.id in self.writers() or bool(self._out_args(call))
+        return bool(self._out_args(call))
+
+    def over_approx(self, tag, chans):
+        ws = [f".write .{c} false" for c in sorted(chans)] or [".write .out false"]
+        w = ws[0] if len(ws) == 1 else f"(.ite ({ws[0]}) ({ws[1]}))"
+        return f"(.loop ((.seq ({self.atom('call:' + tag, False)}) ({w}))))"
+
+    def writer_stmt(self, call):
+        """skeleton of one call that can write"""
+        d = dotted(call.func)
+        passed = self._out_args(call)
+        pre = []
+        for a in list(call.args) + [k.value for k in call.keywords]:
+            if dotted(a) not in self.stdout_names | self.stderr_names:
+                pre += self.expr_atoms(a, "call-arg")
+        if not (isinstance(call.func, ast.Name) and call.func.id in self.local_funcs):
+            return self.seq(pre + [self.over_approx(d, {c for _, c in passed})])
+        name = call.func.id
+        fn = self.local_funcs[name]
+        chans = set(self.writers().get(name, set())) | {c for _, c in passed}
+        params = [a.arg for a in fn.args.posonlyargs + fn.args.args]
+        kwonly = [a.arg for a in fn.args.kwonlyargs]
+        body = [st for st in fn.body if not (isinstance(st, ast.Expr) and isinstance(st.value, ast.Constant))]
+        rets = [n for st in body for n in ast.walk(st) if isinstance(n, ast.Return)]
+        inner_defs = any(isinstance(n, (ast.FunctionDef, ast.AsyncFunctionDef, ast.Lambda, ast.Yield, ast.YieldFrom)) for st in body for n in ast.walk(st))
+        tail_ret = body and isinstance(body[-1], ast.Return)
+        inlinable = (name not in self.stack and self.depth < 3 and not inner_defs and fn.args.vararg is None and fn.args.kwarg is None
+                     and (not rets or (len(rets) == 1 and tail_ret)))
+        if not inlinable:
+            return self.seq(pre + [self.over_approx(name, chans)])
+        outs, errs = set(), set()
+        for pos, c in passed:
+            pname = params[pos] if isinstance(pos, int) and pos < len(params) else (pos if pos in params + kwonly else None)
+            if pname is None:
+                return self.seq(pre + [self.over_approx(name, chans)])
+            (outs if c == "out" else errs).add(pname)
+        sub = Tr(self.genfuncs, self.local_funcs, {"sys.stdout"} | outs, {"sys.stderr"} | errs, self.depth + 1, self.stack + (name,))
+        stmts = body[:-1] if tail_ret else body
+        items = [sub.stmt(st, set()) for st in stmts]
+        if tail_ret:
+            items += sub.expr_atoms(body[-1].value, "ret")
+        return self.seq(pre + [sub.seq(items)])
 
     # ---- totality of expressions
     def total(self, e) -> bool:
@@ -75,6 +191,12 @@ class Tr:
         """atoms evaluating expression e (empty when total)"""
         if e is None or self.total(e):
             return []
+        if self.local_funcs:
+            ws = [n for n in ast.walk(e) if isinstance(n, ast.Call) and self.is_writer_call(n)]
+            if ws:
+                if ws[0] is e:
+                    return [self.writer_stmt(e)]
+                return [self.writer_stmt(n) for n in ws] + [self.atom(tag + ":" + (ast.unparse(e)[:60].replace("\n", " ")), False)]
         if isinstance(e, ast.Call):
             d = dotted(e.func)
             if d in OS_CALLS or (d and d.split(".")[-1] in ("stat", "exists") and d.split(".")[0] in ("path", "file_path")):
@@ -177,19 +299,24 @@ class Tr:
             return self.seq(self.expr_atoms(val.value, "yield-value") + [".yield_"])
         if isinstance(val, ast.YieldFrom):
             return self.seq(self.expr_atoms(val.value, "iter") + [f"(.loop ({self.seq([self.atom('next:' + ast.unparse(val.value)[:40], False), '.yield_'])}))"])
-        if isinstance(val, ast.Call) and dotted(val.func) in STDOUT_WRITES:
+        if isinstance(val, ast.Call) and (dotted(val.func) in STDOUT_WRITES or dotted(val.func) in {n + ".write" for n in self.stdout_names}):
             pre = []
             for a in val.args:
                 pre += self.expr_atoms(a, "write-arg")
             return self.seq(pre + [".write .out true"])
+        if isinstance(val, ast.Call) and dotted(val.func) in {n + ".write" for n in self.stderr_names} and self.local_funcs:
+            pre = []
+            for a in val.args:
+                pre += self.expr_atoms(a, "write-arg")
+            return self.seq(pre + [".write .err true"])
         if isinstance(val, ast.Call) and dotted(val.func) == "print":
             kw = {k.arg: k.value for k in val.keywords}
-            ch = ".err" if "file" in kw and dotted(kw["file"]) == "sys.stderr" else ".out"
+            ch = ".err" if "file" in kw and dotted(kw["file"]) in self.stderr_names else ".out"
             pre = []
             for a in val.args:
                 pre += self.expr_atoms(a, "write-arg")
             return self.seq(pre + [f".write {ch} true"])
-        if isinstance(val, ast.Call) and dotted(val.func) == "json.dump" and len(val.args) >= 2 and dotted(val.args[1]) == "sys.stdout":
+        if isinstance(val, ast.Call) and dotted(val.func) == "json.dump" and len(val.args) >= 2 and dotted(val.args[1]) in self.stdout_names:
             return self.seq(self.expr_atoms(val.args[0], "write-arg") + [".write .out false"])
         if val is not None or isinstance(s, (ast.Expr, ast.Assign, ast.AnnAssign, ast.AugAssign)):
             atoms = self.expr_atoms(val, "stmt")
@@ -276,7 +403,11 @@ def gen_wrappers():
     rf = find_func(init, "read_file")
     L.append(f"def read_file : Stmt :=\n  {tr.block(rf.body, set())}\n")
     cli = find_func("sharepoint2text/cli.py", "main")
-    L.append(f"def cli_main : Stmt :=\n  {tr.block(cli.body, set())}\n")
+    cli_funcs = {n.name: n for n in parse("sharepoint2text/cli.py").body if isinstance(n, (ast.FunctionDef, ast.AsyncFunctionDef)) and n.name != "main"}
+    tr_cli = Tr(local_funcs=cli_funcs)
+    L.append("/-- sharepoint2text/cli.py:main — calls of module-local functions that can write to stdout/stderr are inlined "
+             f"(or over-approximated by `loop (opaque ; partial write)`); local functions that can write: {sorted(tr_cli.writers()) or 'none'} -/")
+    L.append(f"def cli_main : Stmt :=\n  {tr_cli.block(cli.body, set())}\n")
     # member / attachment loops
     extra = [("sharepoint2text/parsing/extractors/archive_extractor.py", "_process_archive_entry")]
     dt = "sharepoint2text/parsing/extractors/data_types.py"
